@@ -38,7 +38,10 @@ def run(ctx):
         ctx.analysed(pl)
         pm = plumb.PipelineModel(crate, pl)
         if not ctx.require(pm.ok(), "R08-3", "R08-3|anchor|model",
-                           "cannot identify the pipe vector / capture pipes / creation and stage loops in run_pipeline",
+                           "cannot identify the pipe vector / capture pipes / creation and stage loops in run_pipeline"
+                           + ("" if pm.creation_loop is not None or pm.pipes is None else
+                              ": the stage pipes are not created by a loop whose failure path closes the pipes already "
+                              "created, so a pipe() failing part-way (descriptor exhaustion) may leak the earlier ones"),
                            pl.path):
             continue
         lem = pm.verify_lemmas()
